@@ -266,6 +266,24 @@ def compare_position(flag_expr, spec_quantities, allowed_fn, rng, result, label,
         raise AnalysisError(f'{label}: {total} order cells exceed the enumeration bound {max_cells} '
                             f'({len(order)} compared quantities)')
     foreign = [q for q in order if q not in spec_qs]
+    odd = [q for q in foreign if not numeric_evaluable(q) and not identity_evaluable(q)]
+    spec_unint = [q for q in spec_qs if q[0] == 'fn' or (q[0] == 'abs' and q[1][0] == 'fn')]
+    if odd and not spec_unint:
+        # the code compares an expression with uninterpreted functions (sqrt, sin, ...) that the spec does not know: cells over it
+        # are meaningless (it is not independent of the other quantities).  Decide by exact-data sampling of both sides instead.
+        try:
+            hit = sample_disagreement(fexpr, allowed_fn, rng, spec_quantities=spec_quantities, trials=150)
+        except KeyError as e:
+            from .repo import AnalysisError
+            raise AnalysisError(f'{label}: the code compares {X.show(odd[0])[:80]}, which cannot be related to the specification ({e})')
+        result.cells += 150
+        result.sampled = getattr(result, 'sampled', 0) + 1
+        if hit is not None:
+            env, fa, fb = hit
+            result.mismatches.append(dict(where=label, cell={'(sampled data)': ''}, got=sorted(map(str, fa)), allowed=sorted(map(str, fb)),
+                                          witness={X.show(a): str(v) for a, v in env.items()}, foreign=[X.show(q) for q in foreign],
+                                          expr=X.show(flag_expr)[:600]))
+        return
     for combo in itertools.product(*cands):
         cell = dict(zip(order, combo))
         got = flags_of(X.eval_values(fexpr, cell))
@@ -279,6 +297,28 @@ def compare_position(flag_expr, spec_quantities, allowed_fn, rng, result, label,
             if env is None and all(numeric_evaluable(q) for q in order):
                 result.unrealised += 1
                 continue
+            if env is None:
+                # a cell over quantities that cannot be evaluated exactly.  If the *code* compares a quantity the spec does not
+                # know and that is an uninterpreted expression (sqrt, sin, ...), equality with the spec's quantity cannot be
+                # excluded symbolically: hand the scenario to the concretised run instead of reporting.  The geodesic distance is
+                # the exception: the property names the function, so a different expression is a difference.
+                odd = [q for q in foreign if not numeric_evaluable(q) and not identity_evaluable(q)]
+                spec_unint = [q for q in spec_qs if q[0] == 'fn' or (q[0] == 'abs' and q[1][0] == 'fn')]
+                if odd and not spec_unint:
+                    try:
+                        hit = sample_disagreement(fexpr, allowed_fn, rng, spec_quantities=spec_quantities)
+                    except KeyError as e:
+                        from .repo import AnalysisError
+                        raise AnalysisError(f'{label}: the code compares {X.show(odd[0])[:80]}, which cannot be related to the specification ({e})')
+                    if hit is None:
+                        result.unrealised += 1
+                        result.sampled = getattr(result, 'sampled', 0) + 1
+                        return        # no concrete disagreement found: treated as an equivalent spelling (sampled, not proved)
+                    env, fa, fb = hit
+                    result.mismatches.append(dict(where=label, cell={X.show(q): str(r) for q, r in cell.items()}, got=sorted(map(str, fa)),
+                                                  allowed=sorted(map(str, fb)), witness={X.show(a): str(v) for a, v in env.items()},
+                                                  foreign=[X.show(q) for q in foreign], expr=X.show(flag_expr)[:600]))
+                    return
             result.mismatches.append(dict(
                 where=label,
                 cell={X.show(q): str(r) for q, r in cell.items()},
@@ -291,6 +331,120 @@ def compare_position(flag_expr, spec_quantities, allowed_fn, rng, result, label,
                 return
     if len(result.samples) < 3:
         result.samples.append(dict(where=label, flag=X.show(flag_expr)[:300], quantities=[X.show(q) for q in order], cells=total))
+
+
+def fval(e, env):
+    """floating-point value of an expression, uninterpreted functions evaluated with the math module (used only to look for
+    a concrete witness when a cell contains quantities that exact arithmetic cannot evaluate)"""
+    import math
+    t = e[0]
+    if t == 'num':
+        return float(e[1])
+    if t == 'x':
+        return float(env[e])
+    if t == 'nan':
+        return float('nan')
+    if t == 'lin':
+        return sum(fval(g, env) * float(k) for g, k in e[1]) + float(e[2])
+    if t == 'abs':
+        return abs(fval(e[1], env))
+    if t == 'sign':
+        v = fval(e[1], env)
+        return float((v > 0) - (v < 0))
+    if t in ('min', 'max'):
+        vs = [fval(a, env) for a in e[1]]
+        return min(vs) if t == 'min' else max(vs)
+    if t == 'mul':
+        r = 1.0
+        for a in e[1]:
+            r *= fval(a, env)
+        return r
+    if t == 'div':
+        return fval(e[1], env) / fval(e[2], env)
+    if t == 'ite':
+        return fval(e[2], env) if fbool(e[1], env) else fval(e[3], env)
+    if t == 'red':
+        vs = [fval(a, env) for a in e[2]]
+        if e[1] in ('std', 'std_pop', 'std_sample'):
+            m = sum(vs) / len(vs)
+            return math.sqrt(sum((v - m) ** 2 for v in vs) / (len(vs) - (1 if e[1] == 'std_sample' else 0)))
+        if e[1] == 'median':
+            vs.sort()
+            k = len(vs)
+            return vs[k // 2] if k % 2 else (vs[k // 2 - 1] + vs[k // 2]) / 2
+        if e[1] == 'mean':
+            return sum(vs) / len(vs)
+        if e[1] == 'sum':
+            return sum(vs)
+    if t == 'fn':
+        a = [fval(x, env) for x in e[2]]
+        name = e[1]
+        table = {'sqrt': math.sqrt, 'sin': math.sin, 'cos': math.cos, 'tan': math.tan, 'arcsin': math.asin, 'asin': math.asin, 'arccos': math.acos,
+                 'acos': math.acos, 'arctan': math.atan, 'atan': math.atan, 'arctan2': math.atan2, 'atan2': math.atan2, 'radians': math.radians,
+                 'deg2rad': math.radians, 'degrees': math.degrees, 'rad2deg': math.degrees, 'exp': math.exp, 'log': math.log, 'log10': math.log10,
+                 'hypot': math.hypot, 'power': math.pow, 'pow': math.pow, 'sinh': math.sinh, 'cosh': math.cosh, 'tanh': math.tanh,
+                 'trunc': lambda v: float(math.trunc(v)), 'floor': lambda v: float(math.floor(v)), 'ceil': lambda v: float(math.ceil(v)),
+                 'rint': lambda v: float(round(v)), 'floordiv': lambda x, y: float(math.floor(x / y)), 'mod': lambda x, y: x - y * math.floor(x / y)}
+        if name in table:
+            return table[name](*a)
+        if name == 'inf':
+            return math.inf if a[0] >= 0 else -math.inf
+        if name == 'geodist':
+            from geographiclib.geodesic import Geodesic
+            return Geodesic.WGS84.Inverse(*a)['s12']
+    raise KeyError(f'no float evaluation for {e[:2]!r}')
+
+
+def fbool(f, env):
+    t = f[0]
+    if t == 'true':
+        return True
+    if t == 'false':
+        return False
+    if t == 'cmp':
+        a, b = fval(f[2], env), fval(f[3], env)
+        return {'lt': a < b, 'le': a <= b, 'gt': a > b, 'ge': a >= b, 'eq': a == b, 'ne': a != b}[f[1]]
+    if t == 'not':
+        return not fbool(f[1], env)
+    if t == 'and':
+        return all(fbool(g, env) for g in f[1])
+    if t == 'or':
+        return any(fbool(g, env) for g in f[1])
+    raise KeyError(f'no float evaluation for formula {t}')
+
+
+def fflag(e, env):
+    """concrete flag of an ite tree under float evaluation"""
+    while isinstance(e, tuple) and e and e[0] == 'ite':
+        e = e[2] if fbool(e[1], env) else e[3]
+    return flags_of([e])
+
+
+def sample_disagreement(expr_a, expr_b_or_allowed, rng, spec_quantities=None, trials=80):
+    """look for concrete data on which two flag expressions differ (or on which one leaves the allowed set of a spec).
+    -> (env, flags_a, flags_b/allowed) or None;  raises KeyError when an expression cannot be evaluated numerically"""
+    atoms = sorted(X.data_atoms(expr_a) | (X.data_atoms(expr_b_or_allowed) if isinstance(expr_b_or_allowed, tuple) else set()), key=repr)
+    if spec_quantities:
+        for q, _ in spec_quantities:
+            atoms = sorted(set(atoms) | X.data_atoms(q), key=repr)
+    scales = [1, 1, 2, 5, 30, 1000, 100000]
+    for k in range(trials):
+        sc = rng.choice(scales)
+        env = {a: Fr(rng.randint(-8 * sc, 8 * sc), rng.choice((1, 2, 4))) for a in atoms}
+        try:
+            fa = fflag(expr_a, env)
+            if isinstance(expr_b_or_allowed, tuple):
+                fb = fflag(expr_b_or_allowed, env)
+                if fa != fb:
+                    return env, fa, fb
+            else:
+                cell = {q: fval(q, env) for q, _ in spec_quantities}
+                want = expr_b_or_allowed(cell)
+                if want is not None and not fa <= set(want):
+                    return env, fa, set(want)
+        except (ZeroDivisionError, ValueError, OverflowError):
+            continue
+    return None
 
 
 def compare_pair(expr_a, expr_b, relation, rng, result, label, max_cells=20000):
@@ -317,6 +471,26 @@ def compare_pair(expr_a, expr_b, relation, rng, result, label, max_cells=20000):
     if total > max_cells:
         from .repo import AnalysisError
         raise AnalysisError(f'{label}: {total} joint order cells exceed the bound')
+    qa, qb = set(collect_quantities([ea])), set(collect_quantities([eb]))
+    lone = [q for q in order if not numeric_evaluable(q) and not identity_evaluable(q) and not (q in qa and q in qb)
+            and not (q[0] == 'fn' and q[1] == 'geodist') and not (q[0] == 'abs' and q[1][0] == 'fn' and q[1][1] == 'geodist')]
+    if lone:
+        # an uninterpreted expression that occurs in only one of the two runs: decide by exact-data sampling
+        try:
+            hit = None
+            for _ in range(150):
+                h = sample_disagreement(ea, eb, rng, trials=1)
+                if h is not None and not relation(h[1], h[2]):
+                    hit = h
+                    break
+        except KeyError as e:
+            from .repo import AnalysisError
+            raise AnalysisError(f'{label}: quantities that cannot be evaluated ({e})')
+        result.cells += 150
+        if hit is not None:
+            result.mismatches.append(dict(where=label, cell={'(sampled data)': ''}, got=sorted(map(str, hit[1])), allowed=sorted(map(str, hit[2])),
+                                          witness={X.show(a): str(v) for a, v in hit[0].items()}))
+        return
     for combo in itertools.product(*cands):
         cell = dict(zip(order, combo))
         fa = flags_of(X.eval_values(ea, cell))
@@ -328,6 +502,24 @@ def compare_pair(expr_a, expr_b, relation, rng, result, label, max_cells=20000):
             if env is None and all(numeric_evaluable(q) for q in order):
                 result.unrealised += 1
                 continue
+            if env is None and any(not numeric_evaluable(q) and not identity_evaluable(q) and not (q[0] == 'fn' and q[1] == 'geodist')
+                                   and not (q[0] == 'abs' and q[1][0] == 'fn' and q[1][1] == 'geodist') for q in order):
+                # uninterpreted quantities (sqrt, sin, ...): look for a concrete witness instead of trusting the symbolic cell
+                try:
+                    hit = None
+                    for _ in range(80):
+                        h = sample_disagreement(ea, eb, rng, trials=1)
+                        if h is not None and not relation(h[1], h[2]):
+                            hit = h
+                            break
+                except KeyError as e:
+                    from .repo import AnalysisError
+                    raise AnalysisError(f'{label}: quantities that cannot be evaluated ({e})')
+                if hit is None:
+                    result.unrealised += 1
+                    return
+                env = hit[0]
+                fa, fb = hit[1], hit[2]
             result.mismatches.append(dict(where=label, cell={X.show(q): str(r) for q, r in cell.items()},
                                           got=sorted(map(str, fa)), allowed=sorted(map(str, fb)),
                                           witness=None if env is None else {X.show(a): str(v) for a, v in env.items()}))
